@@ -264,8 +264,45 @@ pub(crate) mod verif_probe {
         })
     }
 
+    /// A Server whose statistics entry is registered is dropped, healthy or marked bad: is it still listed?
+    pub(crate) fn server_drop_stats() -> Value {
+        let rt = tokio::runtime::Builder::new_multi_thread().worker_threads(2).enable_all().build().unwrap();
+        rt.block_on(async move {
+            let csmap: ClientServerMap = Arc::new(Mutex::new(HashMap::new()));
+            let mut listed_before = true;
+            let mut after = vec![];
+            for bad in [false, true] {
+                let dummy = std::net::TcpListener::bind("127.0.0.1:0").unwrap();
+                let stream = TcpStream::connect(("127.0.0.1", dummy.local_addr().unwrap().port())).await.unwrap();
+                let address = Address { host: "127.0.0.1".to_string(), port: 1, pool_name: "dropstats".to_string(), ..Address::default() };
+                let stats = Arc::new(ServerStats::new(address.clone(), tokio::time::Instant::now()));
+                stats.register(stats.clone());
+                let id = stats.server_id();
+                let server = Server {
+                    address,
+                    stream: BufStream::new(StreamInner::Plain { stream }),
+                    buffer: BytesMut::new(), server_parameters: ServerParameters::new(),
+                    process_id: 1, secret_key: 2,
+                    in_transaction: false, data_available: false, in_copy_mode: false, bad,
+                    cleanup_state: CleanupState { needs_cleanup_set: false, needs_cleanup_prepare: false },
+                    client_server_map: csmap.clone(), connected_at: chrono::offset::Utc::now().naive_utc(),
+                    stats: stats.clone(), application_name: "app".to_string(), last_activity: SystemTime::now(),
+                    mirror_manager: None, addr_set: None, cleanup_connections: true, log_client_parameter_status_changes: false,
+                    prepared_statement_cache: None, registering_prepared_statement: VecDeque::new(),
+                    /*VERIF_EXTRA_SERVER_FIELDS*/
+                };
+                listed_before = listed_before && crate::stats::get_server_stats().contains_key(&id);
+                drop(server);
+                after.push(crate::stats::get_server_stats().contains_key(&id));
+                if after[after.len() - 1] { stats.disconnect(); }
+            }
+            json!({"listed_before": listed_before, "listed_after_good": after[0], "listed_after_bad": after[1]})
+        })
+    }
+
     pub(crate) fn handle(op: &str, v: &Value) -> Option<Value> {
         match op {
+            "server_drop_stats" => Some(server_drop_stats()),
             "server_script" => Some(run_script(v)),
             "cancel_roundtrip" => Some(cancel_roundtrip(v)),
             _ => None,
